@@ -68,9 +68,21 @@ pub fn value_diff(ctx: &mut Context, got: &Value, want: &Val) -> Option<(&'stati
 enum Store<'a> {
     Svs { dense: bool },
     Slice,
+    ArraySlice,
     Map,
     #[allow(dead_code)]
     Unused(&'a ()),
+}
+
+/// deterministic reordering: rotate by `k`, reverse for odd `k`
+fn scramble<T>(v: &mut [T], k: usize) {
+    if v.len() > 1 {
+        let n = v.len();
+        v.rotate_left(k % n);
+        if k % 2 == 1 {
+            v.reverse();
+        }
+    }
 }
 
 fn eval_with(ctx: &Context, env: &Env, st: &Store, e: ExprRef) -> Result<Value, util::PanicInfo> {
@@ -80,8 +92,16 @@ fn eval_with(ctx: &Context, env: &Env, st: &Store, e: ExprRef) -> Result<Value, 
             util::catch(|| eval_expr(ctx, &s, e))
         }
         Store::Slice => {
+            // the pairs come in no particular order (nothing asks callers for one): a deterministic scramble
             let mut v: Vec<(ExprRef, BitVecValue)> = env.iter().map(|(k, x)| (*k, baa_from_bv(x.bv()))).collect();
             v.sort_by_key(|x| x.0);
+            scramble(&mut v, usize::from(e));
+            util::catch(|| eval_expr(ctx, v.as_slice(), e))
+        }
+        Store::ArraySlice => {
+            let mut v: Vec<(ExprRef, baa::ArrayValue)> = env.iter().map(|(k, x)| (*k, super::common::baa_array_from(x.arr(), usize::from(*k) % 2 == 1))).collect();
+            v.sort_by_key(|x| x.0);
+            scramble(&mut v, usize::from(e));
             util::catch(|| eval_expr(ctx, v.as_slice(), e))
         }
         Store::Map => {
@@ -252,7 +272,7 @@ impl Check for C06 {
         "evaluations"
     }
     fn rule(&self) -> String {
-        "G1 random rule-directed expression DAGs without div/rem (depth<=4, widths 1,2-8,31-33,63-65,127-129 and in between, arrays idx 1-5 / data 1-65), each evaluated with eval_expr under 6 corner-biased/correlated assignments through SymbolValueStore (sparse+dense arrays), slice-of-pairs and FxHashMap stores, plus one short-circuit variant (inner node given an arbitrary value, symbols only below it left unbound); judged against the big-integer reference evaluator incl. canonical-word, is_equal and interning checks. distinct_nontrivial = distinct rendered expressions with at least one operator node.".into()
+        "G1 random rule-directed expression DAGs without div/rem (depth<=4, widths 1,2-8,31-33,63-65,127-129 and in between, arrays idx 1-5 / data 1-65), each evaluated with eval_expr under 6 corner-biased/correlated assignments through SymbolValueStore (sparse+dense arrays), slice-of-pairs (bit-vector pairs, and array pairs for expressions over array symbols only; in scrambled order - nothing requires the pairs to be sorted) and FxHashMap stores, plus one short-circuit variant (inner node given an arbitrary value, symbols only below it left unbound); judged against the big-integer reference evaluator incl. canonical-word, is_equal and interning checks. distinct_nontrivial = distinct rendered expressions with at least one operator node.".into()
     }
     fn assumptions(&self) -> Vec<String> {
         vec![
@@ -286,6 +306,7 @@ impl Check for C06 {
         }
         let syms = r2::symbols_of(&ctx, &[e]);
         let bv_only = syms.iter().all(|s| matches!(ctx[*s], Expr::BVSymbol { .. }));
+        let array_only = !syms.is_empty() && syms.iter().all(|s| matches!(ctx[*s], Expr::ArraySymbol { .. }));
         if sh.want_sample() {
             sh.sample(json!({"expr": util::trunc(&r2::render(&ctx, e), 300), "family": fam}));
         }
@@ -302,6 +323,10 @@ impl Check for C06 {
             if bv_only && k < 2 {
                 self.judge(sh, &mut ctx, e, &env, &Store::Slice, "slice", &want);
                 self.judge(sh, &mut ctx, e, &env, &Store::Map, "FxHashMap", &want);
+            }
+            if array_only && k < 2 {
+                sh.count("evaluations_through_a_slice_of_array_pairs", 1);
+                self.judge(sh, &mut ctx, e, &env, &Store::ArraySlice, "array-slice", &want);
             }
             if k == 0 {
                 // short circuit: give an inner node an arbitrary value, unbind symbols that only occur below it
